@@ -325,6 +325,26 @@ def write_evidence(mod, ctx, wall, n_viol):
         json.dump(ev, f, indent=1, default=str)
 
 
+def _arm_wall_guard(prop_id, tier):
+    """A check must never hang: after VERIF_MAX_WALL seconds the run is declared a harness
+    error (exit 2, never a VIOLATION)."""
+    import signal
+
+    limit = int(os.environ.get("VERIF_MAX_WALL", "900" if tier == "quick" else "14400"))
+
+    def on_alarm(signum, frame):
+        print(f"HARNESS-ERROR {prop_id}: wall-clock guard of {limit}s hit (inconclusive)", file=sys.stderr)
+        sys.stderr.flush()
+        try:
+            for ch in mp.active_children():
+                ch.terminate()
+        finally:
+            os._exit(2)
+
+    signal.signal(signal.SIGALRM, on_alarm)
+    signal.alarm(limit)
+
+
 def main(argv):
     if len(argv) < 2:
         print("usage: check <ID> quick|thorough | check <ID> --replay FILE", file=sys.stderr)
@@ -358,6 +378,7 @@ def main(argv):
         tier = argv[1]
         if tier not in ("quick", "thorough"):
             tier = os.environ.get("VERIF_TIER", "quick")
+        _arm_wall_guard(prop_id, tier)
         ctx = Ctx(prop_id, tier, seed, known)
         replay_tier(mod, ctx)
         mod.run(ctx)
